@@ -152,12 +152,428 @@ Section Cbs.
     | _ => l
     end.
 
-  (* one notification in the fragment: default listeners, no observers *)
-  Definition notified (k : nkind) (a : api) (fin : bool) (s : NS) : NS :=
-    s <| ns_log := ENotif 0 (notif_of s k a) (ns_running s) :: ns_log s |>
-      <| ns_pending := pend_after k (a_uuid a) (ns_pending s) |>
-      <| ns_nss := match k with SS => S (ns_nss s) | _ => ns_nss s end |>
-      <| ns_nnot := S (ns_nnot s) |>
-      <| ns_running := if fin then false else ns_running s |>.
+  Section NE.
+    Variable f' : nat. Variable k : nkind. Variable ai : nat.
+    Fixpoint neach (h : nat) (i : nat) {struct h} : NetModel.N unit :=
+         match h with
+         | O => nfail Fuel
+         | S h' =>
+           s <~ nget ;;
+           match nth_error (listeners_of k (ns_ls s)) i with
+           | None => nret tt
+           | Some l =>
+             a <~ get_api ai ;;
+             nlog [ENotif l (notif_of s k a) (ns_running s)] ;;~
+             (if Nat.eqb l 0 then engine_reacts tasks env f' k ai else nret tt) ;;~
+             neach h' (S i)
+           end
+         end.
+  End NE.
+  Lemma notify_user_S : forall f k ai fin,
+    notify_user tasks env (S f) k ai fin =
+      (s0 <~ nget ;;
+      neach f k ai (S (List.length (ns_ls s0))) 0 ;;~
+      (if fin then nmod (fun s => s <| ns_running := false |>) else nret tt) ;;~
+      a <~ get_api ai ;;
+      s <~ nget ;;
+      nlog (map (fun o => EObs o k (a_name a) (ident_nat (a_uuid a)) fin) (ns_obs s))).
+  Proof. reflexivity. Qed.
+  Lemma engine_reacts_S : forall f k ai,
+    engine_reacts tasks env (S f) k ai =
+      (a <~ get_api ai ;;
+      let id := a_uuid a in
+      (match k with
+       | SS => nmod (fun s => s <| ns_pending := ns_pending s ++ [id] |>)
+       | SF => nmod (fun s => s <| ns_pending :=
+                                 match remove_first (ident_eqb id) (ns_pending s) with
+                                 | Some l => l | None => ns_pending s end |>)
+       | _ => nret tt
+       end) ;;~
+      (match k with
+       | TS | SS => set_api ai (with_params (hostile (ec_mutate env) (a_params a)))
+       | _ => nret tt
+       end) ;;~
+      (match k with
+       | SS =>
+         s <~ nget ;;
+         nmod (fun s => s <| ns_nss := S (ns_nss s) |>) ;;~
+         if ec_imm env (ns_nss s)
+         then sched_fire_event tasks env f (EvFinish (a_uuid a)) ;;~ nret tt
+         else nret tt
+       | _ => nret tt
+       end) ;;~
+      s <~ nget ;;
+      nmod (fun s => s <| ns_nnot := S (ns_nnot s) |>) ;;~
+      match (if ec_react_all env || match k with TS | SS => true | _ => false end
+             then ec_react env (ns_nnot s) else None), ns_pending s with
+      | Some j, p0 :: prest =>
+        let pend := p0 :: prest in
+        let sid := nth (Nat.modulo j (List.length pend)) pend p0 in
+        nlog [EFireIn (ident_nat sid)] ;;~
+        r <~ sched_fire_event tasks env f (EvFinish sid) ;;
+        nlog [EFireOut (ident_nat sid) r]
+      | _, _ => nret tt
+      end).
+  Proof. reflexivity. Qed.
 
+  Definition reacted (k : nkind) (a : api) (s : NS) : NS :=
+    s <| ns_pending := pend_after k (a_uuid a) (ns_pending s) |>
+      <| ns_nss := match k with SS => S (ns_nss s) | _ => ns_nss s end |>
+      <| ns_nnot := S (ns_nnot s) |>.
+  Lemma engine_reacts_frag : forall f k ai s a,
+      nth_error (ns_apis s) ai = Some a ->
+      engine_reacts tasks env (S f) k ai s = Ok (tt, reacted k a s).
+  Proof.
+    intros f k ai s a Ha. destruct Hq as (Himm & Hreact & Hmut).
+    rewrite engine_reacts_S. unfold nbind at 1. unfold get_api at 1. rewrite Ha.
+    cbv zeta. rewrite Hmut. unfold hostile.
+    destruct s as [pl tr cbs pd apis sp fp fr ti aw rn cn tid sid ls obs lg q nss nnot pend].
+    cbn [ns_apis] in Ha.
+    destruct k; unfold nbind, nget, nmod, nret, set_api, reacted, pend_after.
+    all: cbn [ns_pending ns_nss ns_nnot ns_apis set].
+    all: cbn.
+    all: rewrite ?Himm, ?Hreact, ?orb_true_r.
+    all: rewrite ?(upd_same _ _ _ _ _ Ha (with_params_same a)).
+    all: try reflexivity.
+    all: destruct (ec_react_all env); cbn; try reflexivity.
+
+  Qed.
+
+  Definition notified (k : nkind) (a : api) (fin : bool) (s : NS) : NS :=
+    let s1 := reacted k a (s <| ns_log := ENotif 0 (notif_of s k a) (ns_running s) :: ns_log s |>) in
+    if fin then s1 <| ns_running := false |> else s1.
+
+  Lemma listeners_default : forall k, listeners_of k default_listeners = [0].
+  Proof. intros []; reflexivity. Qed.
+
+  Lemma notify_user_frag : forall f k ai fin s a,
+      ns_ls s = default_listeners -> ns_obs s = [] ->
+      nth_error (ns_apis s) ai = Some a ->
+      notify_user tasks env (S (S f)) k ai fin s = Ok (tt, notified k a fin s).
+  Proof.
+    intros f k ai fin s a Hls Hobs Ha.
+    rewrite notify_user_S. unfold nbind at 1. unfold nget at 1. rewrite Hls.
+    change (List.length default_listeners) with 4.
+    unfold nbind at 1.
+    assert (E : neach (S f) k ai 5 0 s
+                = Ok (tt, reacted k a (s <| ns_log := ENotif 0 (notif_of s k a) (ns_running s) :: ns_log s |>))).
+    { cbn [neach]. unfold nbind at 1. unfold nget at 1. rewrite Hls, listeners_default. cbn [nth_error].
+      unfold nbind at 1. unfold get_api at 1. rewrite Ha.
+      unfold nbind at 1. unfold nlog at 1, nmod at 1. cbn [rev app Nat.eqb].
+      unfold nbind at 1. rewrite (engine_reacts_frag f k ai _ a) by exact Ha.
+      unfold nbind at 1. unfold nget at 1.
+      change (ns_ls (reacted k a (s <| ns_log := ENotif 0 (notif_of s k a) (ns_running s) :: ns_log s |>))) with (ns_ls s).
+      rewrite Hls, listeners_default. reflexivity. }
+    rewrite E. clear E. unfold notified.
+    destruct fin; unfold nbind, nmod, nret, nget, get_api, nlog.
+    - change (ns_apis (reacted k a (s <| ns_log := ENotif 0 (notif_of s k a) (ns_running s) :: ns_log s |>) <| ns_running := false |>)) with (ns_apis s).
+      rewrite Ha.
+      change (ns_obs (reacted k a (s <| ns_log := ENotif 0 (notif_of s k a) (ns_running s) :: ns_log s |>) <| ns_running := false |>)) with (ns_obs s).
+      rewrite Hobs. destruct s; reflexivity.
+    - change (ns_apis (reacted k a (s <| ns_log := ENotif 0 (notif_of s k a) (ns_running s) :: ns_log s |>))) with (ns_apis s).
+      rewrite Ha.
+      change (ns_obs (reacted k a (s <| ns_log := ENotif 0 (notif_of s k a) (ns_running s) :: ns_log s |>))) with (ns_obs s).
+      rewrite Hobs. destruct s; reflexivity.
+  Qed.
+
+  Lemma on_task_started_S : forall f ai,
+    on_task_started tasks env (S f) ai =
+      (a <~ get_api ai ;;
+      s <~ nget ;;
+      (if a_in_loop a
+       then
+         u <~ new_test_or_uuid true ;;
+         set_api ai (with_uuid u) ;;~
+         (if a_has_call a then set_api ai (with_params (a_src a)) else nret tt) ;;~
+         substitute_loop_indexes tasks ai
+       else if ns_test_ids s
+            then u <~ new_test_or_uuid true ;; set_api ai (with_uuid u)
+            else nret tt) ;;~
+      notify_user tasks env f TS ai false).
+  Proof. reflexivity. Qed.
+
+  Definition ts_pre (ai : nat) (s : NS) : NS :=
+    s <| ns_tid := S (ns_tid s) |> <| ns_apis := upd ai (with_uuid (ITest (ns_tid s))) (ns_apis s) |>.
+
+  Lemma on_task_started_frag : forall f ai s a,
+      ns_ls s = default_listeners -> ns_obs s = [] -> ns_test_ids s = true ->
+      nth_error (ns_apis s) ai = Some a -> a_in_loop a = false ->
+      on_task_started tasks env (S (S (S f))) ai s
+      = Ok (tt, notified TS (with_uuid (ITest (ns_tid s)) a) false (ts_pre ai s)).
+  Proof.
+    intros f ai s a Hls Hobs Hti Ha Hloop.
+    rewrite on_task_started_S. unfold nbind at 1. unfold get_api at 1. rewrite Ha.
+    unfold nbind at 1. unfold nget at 1. rewrite Hloop, Hti.
+    unfold nbind at 1. unfold nbind at 1. unfold new_test_or_uuid.
+    unfold nbind at 1. unfold nget at 1. rewrite Hti.
+    unfold nbind at 1. unfold nmod at 1. unfold nret at 1. unfold set_api, nmod.
+    apply notify_user_frag.
+    - exact Hls.
+    - exact Hobs.
+    - cbn [ns_apis set]. change (ns_apis (s <| ns_tid := S (ns_tid s) |>)) with (ns_apis s).
+      apply nth_error_upd_eq. exact Ha.
+  Qed.
+
+  Lemma on_service_started_S : forall f ai,
+    on_service_started tasks env (S f) ai =
+      (a <~ get_api ai ;;
+      s <~ nget ;;
+      let rebind (u : ident) : NetModel.N unit :=
+          s <~ nget ;;
+          match dict_get ident_eqb (a_uuid a) (ns_place_dict s) with
+          | None => nfail (Exn KeyError)
+          | Some p => nmod (fun s => s <| ns_place_dict := (u, p) :: ns_place_dict s |>) ;;~
+                      set_api ai (with_uuid u)
+          end in
+      (if a_in_loop a
+       then
+         u0 <~ fresh_uuid ;;
+         u <~ (if ns_test_ids s then new_test_or_uuid false else nret u0) ;;
+         rebind u ;;~
+         set_api ai (with_params (a_src a)) ;;~
+         substitute_loop_indexes tasks ai
+       else if ns_test_ids s
+            then u <~ new_test_or_uuid false ;; rebind u
+            else nret tt) ;;~
+      a' <~ get_api ai ;;
+      nmod (fun s => s <| ns_awaited := ns_awaited s ++ [EvFinish (a_uuid a')] |>) ;;~
+      notify_user tasks env f SS ai false).
+  Proof. reflexivity. Qed.
+
+  Definition ss_pre (ai : nat) (p : nat) (s : NS) : NS :=
+    s <| ns_sid := S (ns_sid s) |>
+      <| ns_place_dict := (ITest (ns_sid s), p) :: ns_place_dict s |>
+      <| ns_apis := upd ai (with_uuid (ITest (ns_sid s))) (ns_apis s) |>
+      <| ns_awaited := ns_awaited s ++ [EvFinish (ITest (ns_sid s))] |>.
+
+  Lemma on_service_started_frag : forall f ai s a p,
+      ns_ls s = default_listeners -> ns_obs s = [] -> ns_test_ids s = true ->
+      nth_error (ns_apis s) ai = Some a -> a_in_loop a = false ->
+      dict_get ident_eqb (a_uuid a) (ns_place_dict s) = Some p ->
+      on_service_started tasks env (S (S (S f))) ai s
+      = Ok (tt, notified SS (with_uuid (ITest (ns_sid s)) a) false (ss_pre ai p s)).
+  Proof.
+    intros f ai s a p Hls Hobs Hti Ha Hloop Hd.
+    rewrite on_service_started_S. unfold nbind at 1. unfold get_api at 1. rewrite Ha.
+    unfold nbind at 1. unfold nget at 1. cbv zeta. rewrite Hloop, Hti.
+    unfold nbind at 1. unfold nbind at 1. unfold new_test_or_uuid.
+    unfold nbind at 1. unfold nget at 1. rewrite Hti.
+    unfold nbind at 1. unfold nmod at 1. unfold nret at 1.
+    unfold nbind at 1. unfold nget at 1.
+    change (ns_place_dict (s <| ns_sid := S (ns_sid s) |>)) with (ns_place_dict s). rewrite Hd.
+    unfold nbind at 1. unfold nmod at 1. unfold set_api at 1. unfold nmod at 1.
+    unfold nbind at 1. unfold get_api at 1.
+    match goal with |- context [nth_error (ns_apis ?X) ai] =>
+      change (ns_apis X) with (upd ai (with_uuid (ITest (ns_sid s))) (ns_apis s)) end.
+    rewrite (nth_error_upd_eq _ _ _ _ _ Ha).
+    unfold nbind at 1. unfold nmod at 1.
+    change (a_uuid (with_uuid (ITest (ns_sid s)) a)) with (ITest (ns_sid s)).
+    match goal with |- notify_user _ _ _ _ _ _ ?X = _ => change X with (ss_pre ai p s) end.
+    apply notify_user_frag.
+    - exact Hls.
+    - exact Hobs.
+    - change (ns_apis (ss_pre ai p s)) with (upd ai (with_uuid (ITest (ns_sid s))) (ns_apis s)).
+      apply nth_error_upd_eq. exact Ha.
+  Qed.
+
+  (* ---- the four notification callbacks, for every sufficiently large fuel ---- *)
+  Lemma run_cb_TS : forall f ai s a,
+      ns_ls s = default_listeners -> ns_obs s = [] -> ns_test_ids s = true ->
+      nth_error (ns_apis s) ai = Some a -> a_in_loop a = false ->
+      run_cb tasks env (S (S (S (S f)))) (CbTS ai) s
+      = Ok (tt, notified TS (with_uuid (ITest (ns_tid s)) a) false (ts_pre ai s)).
+  Proof. intros. rewrite run_cb_S. apply on_task_started_frag; assumption. Qed.
+
+  Lemma run_cb_SS : forall f ai s a p,
+      ns_ls s = default_listeners -> ns_obs s = [] -> ns_test_ids s = true ->
+      nth_error (ns_apis s) ai = Some a -> a_in_loop a = false ->
+      dict_get ident_eqb (a_uuid a) (ns_place_dict s) = Some p ->
+      run_cb tasks env (S (S (S (S f)))) (CbSS ai) s
+      = Ok (tt, notified SS (with_uuid (ITest (ns_sid s)) a) false (ss_pre ai p s)).
+  Proof. intros. rewrite run_cb_S. apply on_service_started_frag; assumption. Qed.
+
+  Lemma run_cb_SF : forall f ai s a,
+      ns_ls s = default_listeners -> ns_obs s = [] ->
+      nth_error (ns_apis s) ai = Some a ->
+      run_cb tasks env (S (S (S (S f)))) (CbSF ai) s = Ok (tt, notified SF a false s).
+  Proof.
+    intros. rewrite run_cb_S, on_service_finished_S. apply notify_user_frag; assumption.
+  Qed.
+
+  Lemma run_cb_TF : forall f ai s a,
+      ns_ls s = default_listeners -> ns_obs s = [] ->
+      nth_error (ns_apis s) ai = Some a ->
+      run_cb tasks env (S (S (S (S f)))) (CbTF ai) s
+      = Ok (tt, notified TF a (Nat.eqb (a_name a) production_task) s).
+  Proof.
+    intros f ai s a Hls Hobs Ha. rewrite run_cb_S, on_task_finished_S.
+    unfold nbind, get_api. rewrite Ha. apply notify_user_frag; assumption.
+  Qed.
 End Cbs.
+
+(* =========================================================================== *)
+(* fuel-free description of one evaluation                                      *)
+(* =========================================================================== *)
+Definition fire_ns (t : trans) (s : NS) : NS :=
+  s <| ns_places := fold_left (fun ps p => upd p (option_map S) ps) (tr_post t)
+                      (fold_left (fun ps p => upd p (option_map Nat.pred) ps) (tr_pre t) (ns_places s)) |>.
+
+Lemma fire_trans_eq : forall t s, fire_trans t s = Ok (tt, fire_ns t s).
+Proof. reflexivity. Qed.
+
+Definition no_parloop (l : list cb) : bool := forallb (fun c => negb (is_parloop_cb c)) l.
+
+Lemma find_pl_none : forall l, no_parloop l = true ->
+    forall h i temp, find_pl h i l temp = (temp, l).
+Proof.
+  intros l Hl. induction h as [|h IH]; intros i temp; cbn [find_pl]; [reflexivity|].
+  destruct (nth_error l i) as [c|] eqn:E; [|reflexivity].
+  assert (Hc : is_parloop_cb c = false).
+  { unfold no_parloop in Hl. rewrite forallb_forall in Hl.
+    apply nth_error_In in E. apply Hl in E. destruct (is_parloop_cb c); [discriminate|reflexivity]. }
+  rewrite Hc. apply IH.
+Qed.
+
+Section Scan.
+  Variable tasks : list task.
+  Variable env : envcfg.
+
+  Definition RunCb (c : cb) (s s' : NS) : Prop :=
+    exists f0, forall f, f0 <= f -> run_cb tasks env f c s = Ok (tt, s').
+
+  (* the callbacks of transition [t], from position [i] on, run in order; the list is [cbs]
+     throughout *)
+  Inductive RunFrom (t : nat) (cbs : list cb) : nat -> NS -> NS -> Prop :=
+  | rf_end : forall i s, nth t (ns_cbs s) [] = cbs -> nth_error cbs i = None -> RunFrom t cbs i s s
+  | rf_cb : forall i c s s1 s', nth t (ns_cbs s) [] = cbs -> nth_error cbs i = Some c ->
+                                RunCb c s s1 -> RunFrom t cbs (S i) s1 s' -> RunFrom t cbs i s s'.
+
+  Lemma eachF_S : forall f t h i s,
+      eachF tasks env f t (S h) i s =
+      match nth_error (nth t (ns_cbs s) []) i with
+      | None => Ok (tt, s)
+      | Some c => match run_cb tasks env f c s with
+                  | Ok (_, s1) => eachF tasks env f t h (S i) s1
+                  | Fuel => Fuel | Exn k => Exn k | Unsupported => Unsupported
+                  end
+      end.
+  Proof.
+    intros. cbn [eachF]. unfold nbind, nget, nret.
+    destruct (nth_error (nth t (ns_cbs s) []) i); [|reflexivity].
+    destruct (run_cb tasks env f c s) as [[[] s1]| | |]; reflexivity.
+  Qed.
+
+  Lemma RunFrom_eachF : forall t cbs i s s',
+      RunFrom t cbs i s s' ->
+      exists f0, forall f h, f0 <= f -> List.length cbs - i < h ->
+                             eachF tasks env f t h i s = Ok (tt, s').
+  Proof.
+    intros t cbs i s s' H. induction H as [i s Hl Hn|i c s s1 s' Hl Hn [fc Hc] _ [f0 IH]].
+    - exists 0. intros f h _ Hh. destruct h as [|h]; [lia|]. rewrite eachF_S, Hl, Hn. reflexivity.
+    - exists (Nat.max fc f0). intros f h Hf Hh.
+      assert (Hi : i < List.length cbs) by (apply nth_error_Some; congruence).
+      destruct h as [|h]; [lia|]. rewrite eachF_S, Hl, Hn, (Hc f) by lia. apply IH; lia.
+  Qed.
+
+  Definition ScanTo (n : nat) (s s' : NS) : Prop :=
+    exists f0 g0, forall f g, f0 <= f -> g0 <= g -> scanF tasks env f n g 0 s = Ok (tt, s').
+
+  Definition EvalTo (s s' : NS) : Prop :=
+    exists f0, forall f, f0 <= f -> evaluate tasks env f s = Ok (tt, s').
+
+  Lemma ScanTo_EvalTo : forall s s', ScanTo (List.length (ns_trans s)) s s' -> EvalTo s s'.
+  Proof.
+    intros s s' (f0 & g0 & H). exists (S (Nat.max f0 g0)). intros f Hf.
+    destruct f as [|f]; [lia|]. rewrite evaluate_S. apply H; lia.
+  Qed.
+
+  (* transition [i] cannot fire *)
+  Definition disabled (s : NS) (i : nat) : Prop :=
+    match nth_error (ns_trans s) i with Some t => enabled s t = false | None => True end.
+
+  Lemma scanF_S : forall f n g index s,
+      scanF tasks env f n (S g) index s =
+      if Nat.leb n index then Ok (tt, s)
+      else match nth_error (ns_trans s) index with
+           | None => Ok (tt, s)
+           | Some t =>
+             if enabled s t then
+               let cbs := nth index (ns_cbs s) [] in
+               let '(temp, cbs1) := find_pl (S (List.length cbs)) 0 cbs None in
+               match temp with
+               | Some pl =>
+                 (nmod (fun s => s <| ns_cbs := upd index (fun _ => cbs1) (ns_cbs s) |>) ;;~
+                  nfor cbs1 (fun c =>
+                               run_cb tasks env f c ;;~
+                               nmod (fun s => s <| ns_cbs := upd index
+                                                    (fun l => match l with [] => [] | _ :: r => r end) (ns_cbs s) |>)) ;;~
+                  run_cb tasks env f pl) s
+               | None =>
+                 match eachF tasks env f index (S (S (List.length cbs))) 0 (fire_ns t s) with
+                 | Ok (_, s1) => scanF tasks env f n g 0 s1
+                 | Fuel => Fuel | Exn k => Exn k | Unsupported => Unsupported
+                 end
+               end
+             else scanF tasks env f n g (S index) s
+           end.
+  Proof.
+    intros. cbn [scanF]. destruct (Nat.leb n index); [reflexivity|].
+    unfold nbind at 1. unfold nget at 1.
+    destruct (nth_error (ns_trans s) index) as [t|]; [|reflexivity].
+    destruct (enabled s t); [|reflexivity].
+    cbv zeta. destruct (find_pl (S (List.length (nth index (ns_cbs s) []))) 0 (nth index (ns_cbs s) []) None) as [[pl|] cbs1];
+      [reflexivity|].
+    unfold nbind. rewrite fire_trans_eq.
+    destruct (eachF tasks env f index (S (S (List.length (nth index (ns_cbs s) [])))) 0 (fire_ns t s)) as [[[] s1]| | |];
+      reflexivity.
+  Qed.
+
+  Lemma scan_skip : forall f n s k g index,
+      index + k <= n -> index + k <= List.length (ns_trans s) ->
+      (forall j, index <= j < index + k -> disabled s j) ->
+      scanF tasks env f n (k + g) index s = scanF tasks env f n g (index + k) s.
+  Proof.
+    intros f n s. induction k as [|k IH]; intros g index Hn Hl Hd.
+    - rewrite Nat.add_0_r. reflexivity.
+    - cbn [Nat.add]. rewrite scanF_S. rewrite (proj2 (Nat.leb_gt n index)) by lia.
+      pose proof (Hd index ltac:(lia)) as H0. unfold disabled in H0.
+      destruct (nth_error (ns_trans s) index) as [t|] eqn:E.
+      + rewrite H0. replace (index + S k) with (S index + k) by lia.
+        apply IH; try lia. intros j Hj. apply Hd. lia.
+      + apply nth_error_None in E. lia.
+  Qed.
+
+  (* nothing below the snapshot is enabled: the evaluation returns *)
+  Lemma ScanTo_dead : forall n s, (forall j, j < n -> disabled s j) -> ScanTo n s s.
+  Proof.
+    intros n s Hd. exists 0, (S n). intros f g _ Hg.
+    set (m := Nat.min n (List.length (ns_trans s))).
+    replace g with (m + S (g - m - 1)) by lia.
+    rewrite (scan_skip f n s m (S (g - m - 1)) 0) by (try lia; intros j Hj; apply Hd; lia).
+    cbn [Nat.add]. rewrite scanF_S.
+    destruct (Nat.leb n m) eqn:E; [reflexivity|]. apply Nat.leb_gt in E.
+    assert (Hm : m = List.length (ns_trans s)) by lia.
+    destruct (nth_error (ns_trans s) m) eqn:E2; [|reflexivity].
+    assert (m < List.length (ns_trans s)) by (apply nth_error_Some; congruence). lia.
+  Qed.
+
+  (* the first enabled transition fires, its callbacks run, the scan restarts *)
+  Lemma ScanTo_step : forall n s t tr cbs s1 s',
+      t < n -> (forall j, j < t -> disabled s j) ->
+      nth_error (ns_trans s) t = Some tr -> enabled s tr = true ->
+      nth t (ns_cbs s) [] = cbs -> no_parloop cbs = true ->
+      RunFrom t cbs 0 (fire_ns tr s) s1 ->
+      ScanTo n s1 s' -> ScanTo n s s'.
+  Proof.
+    intros n s t tr cbs s1 s' Htn Hd Htr Hen Hcbs Hnp Hrun (f1 & g1 & Hscan).
+    destruct (RunFrom_eachF _ _ _ _ _ Hrun) as [f0 Heach].
+    assert (Hlen : t < List.length (ns_trans s)) by (apply nth_error_Some; congruence).
+    exists (Nat.max f0 f1), (t + S g1). intros f g Hf Hg.
+    replace g with (t + (S (g - t - 1))) by lia.
+    rewrite (scan_skip f n s t (S (g - t - 1)) 0) by (try lia; intros j Hj; apply Hd; lia).
+    cbn [Nat.add]. rewrite scanF_S.
+    rewrite (proj2 (Nat.leb_gt n t)) by lia. rewrite Htr, Hen. cbv zeta.
+    rewrite Hcbs, (find_pl_none _ Hnp).
+    rewrite Heach by lia. apply Hscan; lia.
+  Qed.
+End Scan.
